@@ -172,6 +172,65 @@ pub fn check(ck: &mut Checker<'_>, rp: &Replay, alive: &BTreeSet<usize>) -> BTre
         if distinct.len() >= 2 {
             ck.out.probe("lock_handover_between_clients");
         }
+        // first come, first served: if B's acquire was certainly processed before C's was even
+        // sent, and B neither released, nor was cancelled, nor left, then C cannot be confirmed
+        // while B's request is still unconfirmed (B becomes holder first and never lets go)
+        let acquires: Vec<&OpRec> = ops
+            .iter()
+            .filter(|o| matches!(key_of(o), Some((1, k)) if k == key))
+            .collect();
+        for b in &acquires {
+            // evidence that b was processed: a later request of the same session was answered
+            let processed_by = ops
+                .iter()
+                .filter(|o| o.client == b.client && o.pos > b.pos)
+                .filter_map(|o| o.ans.as_ref().map(|a| a.0))
+                .min();
+            let Some(processed_by) = processed_by else { continue };
+            let b_answer = b.ans.as_ref().map(|a| a.0).unwrap_or(u64::MAX);
+            let b_end = end_of(b.client);
+            for c in &acquires {
+                if c.client == b.client || c.inv < processed_by {
+                    continue;
+                }
+                let Some((c_ack, SM::Ack(_))) = &c.ans else { continue };
+                // a holder asking again is confirmed at once: not a case of overtaking
+                let mut c_holds = false;
+                for o in ops.iter().filter(|o| o.client == c.client && o.pos < c.pos) {
+                    match key_of(o) {
+                        Some((0 | 1, k)) if k == key && matches!(o.ans, Some((_, SM::Ack(_)))) => c_holds = true,
+                        Some((0 | 1, k)) if k == key && o.ans.is_none() => c_holds = true,
+                        Some((2, k)) if k == key && !matches!(o.ans.as_ref().and_then(|a| sm_code(&a.1)), Some(_)) => c_holds = false,
+                        _ => {}
+                    }
+                }
+                if c_holds {
+                    continue;
+                }
+                // B still waiting (no answer of any kind) when C was confirmed?
+                if b_answer < *c_ack || b_end < *c_ack {
+                    continue;
+                }
+                // B gave up its place by a release sent before C's confirmation?
+                let b_released = ops.iter().any(|r| {
+                    r.client == b.client && r.pos > b.pos && r.inv < *c_ack && matches!(key_of(r), Some((2, k)) if k == key)
+                });
+                if b_released {
+                    continue;
+                }
+                // B may already have been the holder when it asked again (immediate confirmation
+                // still in flight) — then C's confirmation is a two-holders case, reported as such
+                ck.out.violate(
+                    "C06",
+                    "fifo",
+                    "a client that asked for a lock later was confirmed before a client that asked earlier and is still waiting",
+                    format!(
+                        "key {key}: client {} asked first ({}; certainly processed by seq {processed_by}), client {} asked at seq {} and was confirmed at seq {c_ack}",
+                        b.client, b.raw, c.client, c.inv
+                    ),
+                );
+            }
+        }
         // nobody left waiting on a free key
         for o in waiting_at_end {
             if !alive.contains(&o.client) {
